@@ -606,8 +606,10 @@ func VerdictC18(h *History) string {
 				if es.Parent != "" {
 					return fmt.Sprintf("export %d (contexts %v): export span is a child of span %s instead of a root span with links", e.Idx, gids, es.Parent)
 				}
+				spans := map[string]bool{}
 				for _, g := range gids {
 					gs := h.Groups[g].SpanID
+					spans[gs] = true
 					if !contains(es.Links, gs) {
 						return fmt.Sprintf("export %d (contexts %v): export span does not link to the span of request context ctx%d", e.Idx, gids, g)
 					}
@@ -615,8 +617,11 @@ func VerdictC18(h *History) string {
 						return fmt.Sprintf("export %d (contexts %v): span of request context ctx%d received no link back to the export span", e.Idx, gids, g)
 					}
 				}
-				if len(es.Links) != len(gids) {
-					return fmt.Sprintf("export %d (contexts %v): export span has %d links for %d distinct contributing request spans", e.Idx, gids, len(es.Links), len(gids))
+				// one link per contributing request: between the number of
+				// distinct request spans and the number of distinct contexts
+				// (several contexts may carry one span)
+				if len(es.Links) < len(spans) || len(es.Links) > len(gids) {
+					return fmt.Sprintf("export %d (contexts %v): export span has %d links for %d distinct contributing request spans / %d contexts", e.Idx, gids, len(es.Links), len(spans), len(gids))
 				}
 			}
 		} else if len(gids) == 1 && h.Sc.Spans {
